@@ -684,7 +684,7 @@ def run(pid, tier, seed, extra=None):
     known_open = [k for k in known.get("open", []) if k["property"] == pid]
     budget_ms = 10000 if tier == "quick" else 60000
     kmax = 3 if tier == "quick" else 4
-    cons = [c for c in registry.values() if pid in c.props and not getattr(c, "inline_only", False)]
+    cons = [c for c in registry.values() if pid in c.props]
     # an expensive contract is verified under its owner property (the first one it lists); the other properties use it
     # modularly, as a stated assumption (a caller is checked against the callee's contract, not its body)
     for c in cons:
